@@ -4,6 +4,7 @@ from ..core import queries as Q
 from ..core.program import fmt_term, fmt_atom
 
 META = {
+    "technique": 'static analysis: repository-specific dataflow / guard-dominance / path rules over LLVM IR (CFG, SSA, resolved call graph), plus two tables of the bundled JSON decoder obtained from its IR (comparison constants of the escape decoder; finite evaluation of parse_hex4 over all byte values)',
     "explanation": (
         "(1) R-GATE/R-WHO: the path index has one insertion site and one removal site; the insertion is reachable only through "
         "the edge element_table_get(path) == NULL (directly or as a must-condition of the success class of a helper) for the "
